@@ -24,7 +24,11 @@ RULE = ("chunk_get: every entry of a reply catalogue (right content, other chunk
         "not a ciphertext, wrong/invalid header kinds, junk and chunk bodies) as Ok reply and as SplitRecord "
         "maps; every returned record additionally keyed with the requested key, with the key its (substituted) "
         "content would honestly live under, or with an unrelated key -- for chunk reads, data-map reads and vault "
-        "reads, on the Ok arm and on the elements of SplitRecord "
+        "reads, on the Ok arm and on the elements of SplitRecord; every version also planted inside the error "
+        "variants that carry a record (NotEnoughCopies, RecordDoesNotMatch); owner-signed versions reaching the "
+        "client unmerged with every relation between counter, data_encoding and ciphertext order; a kad-level family "
+        "where the holders' answers arrive as FoundRecord events at a real client-mode SwarmDriver (stale quorum next "
+        "to a newer version, lying majorities, fewer answers than a majority, repeated peers, every terminating event) "
         "maps of 1, 2 (exhaustive) and 3 (sampled; exhaustive in the thorough tier) versions, plus network "
         "errors; whole-data reads with substituted / flipped / truncated / re-kinded / missing chunks and "
         "data maps.  A case is distinct/non-trivial by (op, shape of the reply, outcome)")
@@ -105,23 +109,34 @@ def rec_term(spec, uid, key_hex):
     return "{| r_key := %s; r_hdr := %s; r_body := %s |}" % (cN(int(key_hex, 16) if key_hex else 0), copt(hdr, cN), body)
 
 
-def reply_term(reply, order, keys=None):
+DUMMY_CARRIED = {"t": "raw", "hex": "010203"}      # what the harness puts into record-carrying errors by default
+GERR = {"NotFound": "GNotFound", "Timeout": "GTimeout", "KindMismatch": "GKindMismatch"}
+
+
+def reply_term(reply, order, keys=None, asked=""):
+    """`keys`: the key the harness put on each scripted record (script order); `asked`: the requested key"""
     keys = keys or []
-    kof = lambda i: keys[i] if i < len(keys) else ""
+    kof = lambda i: keys[i] if i < len(keys) else asked
     if reply["t"] in ("rec", "raw"):
         return "(ROk %s)" % rec_term(reply, 0, kof(0))
     if reply["t"] == "err":
-        return "(RErr %s)" % {"NotFound": "GNotFound", "Timeout": "GTimeout", "KindMismatch": "GKindMismatch",
-                             "DoesNotMatch": "GDoesNotMatch", "NotEnoughCopies": "GNotEnoughCopies"}[reply["e"]]
+        if reply["e"] in GERR:
+            return "(RErr %s)" % GERR[reply["e"]]
+        carried = reply.get("rec") or DUMMY_CARRIED
+        return "(RErr (%s %s))" % ({"DoesNotMatch": "GDoesNotMatch", "NotEnoughCopies": "GNotEnoughCopies"}[reply["e"]],
+                                   rec_term(carried, 0, kof(0)))
     return "(RErr (GSplit %s))" % clist([rec_term(reply["recs"][i], i, kof(i)) for i in order])
 
 
 def records_in(reply, order=None):
+    """every record the reply contains, including one carried inside an error"""
     if reply["t"] in ("rec", "raw"):
         return [(0, reply)]
     if reply["t"] == "split":
         idx = order if order is not None else range(len(reply["recs"]))
-        return [(i, reply["recs"][i]) for i in idx]
+        return [(i, reply["recs"][i]) for i in idx if 0 <= i < len(reply["recs"])]
+    if reply["t"] == "err" and reply.get("rec"):
+        return [(0, reply["rec"])]
     return []
 
 
@@ -225,6 +240,9 @@ def gen_chunk_get(rng, n_contents):
             reps.append(("raw", {"t": "raw", "hex": raw}))
         for e in ("NotFound", "Timeout", "KindMismatch", "DoesNotMatch", "NotEnoughCopies"):
             reps.append(("neterr", {"t": "err", "e": e}))
+        for e in ("NotEnoughCopies", "DoesNotMatch"):
+            for vname, r in (("right", rec(KIND_CHUNK, chunk_body(a))), ("other", rec(KIND_CHUNK, chunk_body(other)))):
+                reps.append(("neterr-carrying-" + vname, {"t": "err", "e": e, "rec": r}))
         reps.append(("split-chunks", {"t": "split", "recs": [rec(KIND_CHUNK, chunk_body(a)), rec(KIND_CHUNK, chunk_body(other))]}))
         reps.append(("split-one-chunk", {"t": "split", "recs": [rec(KIND_CHUNK, chunk_body(a))]}))
         reps.append(("split-pads", {"t": "split", "recs": [rec(KIND_PAD, mk_pad(OWNER, 4, 1, {"t": "good", "by": OWNER})),
@@ -303,6 +321,29 @@ def gen_vault(rng, tier):
                               "reply": {"t": "split", "recs": [cat["auth-low"], r, cat["auth-high"]], "first": rng.randrange(3)}})
                 cases.append({"op": "vault", "kind": "vault/split2-chunkhdr/" + name, "owner": OWNER,
                               "reply": {"t": "split", "recs": [cat["forged-kind-chunk"], r, cat["auth-low"]], "first": 0}})
+    # every GetRecordError variant that CARRIES a record, with every catalogue / fabricated version planted in it
+    # (fewer than a majority of holders answered, byte-identically; or the record did not match a target)
+    base = bases[0]
+    for name, r in pad_catalogue(base) + pad_cross(base):
+        for e in ("NotEnoughCopies", "DoesNotMatch"):
+            if tier == "quick" and e == "DoesNotMatch" and name.startswith("x/") and "/c1" in name:
+                continue
+            cases.append({"op": "vault", "kind": "vault/err-%s/%s" % (e, name), "owner": OWNER,
+                          "reply": {"t": "err", "e": e, "rec": dict(r, key=rng.choice(["requested", "requested", "content", "unrelated"]))}})
+    # several owner-signed versions reaching the client unmerged (a Chunk-kind first header makes the network
+    # layer give up), with every relation between counter order, data_encoding order and ciphertext order:
+    # the newest version must win whatever the versions' other fields compare like
+    g = {"t": "good", "by": OWNER}
+    decoy = rec(KIND_CHUNK, mk_pad(OWNER, base + 55, 13, {"t": "good", "by": 1}))
+    for enc_old, enc_new in ((7, 7), (9, 2), (2, 9)):
+        for rank_old, rank_new in (("high", "low"), ("low", "high")):
+            for n_old in (1, 2, 3):
+                olds = [rec(KIND_PAD, dict(mk_pad(OWNER, base + 1 + i, 40 + i, g, encoding=enc_old), ct_rank=rank_old)) for i in range(n_old)]
+                newest = rec(KIND_PAD, dict(mk_pad(OWNER, base + 20, 50, g, encoding=enc_new), ct_rank=rank_new))
+                for pos in range(n_old + 1):
+                    recs = olds[:pos] + [newest] + olds[pos:]
+                    cases.append({"op": "vault", "kind": "vault/split-ord/enc%d-%d/%s-%s" % (enc_old, enc_new, rank_old, rank_new),
+                                  "owner": OWNER, "reply": {"t": "split", "recs": [decoy] + recs, "first": 0}})
     for e in ("NotFound", "Timeout", "KindMismatch", "DoesNotMatch", "NotEnoughCopies"):
         cases.append({"op": "vault", "kind": "vault/neterr", "owner": OWNER, "reply": {"t": "err", "e": e}})
     for raw in ("", "91", "9105", "9105c0"):
@@ -346,11 +387,54 @@ def gen_data(rng, tier):
     return cases
 
 
+def gen_kad(rng, tier):
+    """vault reads answered one layer lower: the holders' answers arrive as kad FoundRecord events at a real
+    client-mode SwarmDriver (real quorum accumulation), in the scripted order, from the scripted peers"""
+    cat = dict(pad_catalogue(0))
+    cross = dict(pad_cross(0))
+    pool = [cat["auth-low"], cat["auth-high"], cat["auth-mid"], cat["forged"], cat["foreign"], cat["unsigned"],
+            cross["x/own/none/empty/inflated"], cat["junk"], cat["auth-kind-chunk"], cat["forged-kind-chunk"]]
+    A, B, M, FORGED, FOREIGN, UNSIGNED, EMPTY = 0, 1, 2, 3, 4, 5, 6
+    fnd = lambda p, r: {"e": "found", "peer": p, "rec": r}
+    fin = lambda e="finished": {"e": e}
+    scripts = [
+        # a stale version reaches the quorum although a newer one was received: the newer one must win
+        [fnd(0, B), fnd(1, A), fnd(2, A), fnd(3, A)],
+        [fnd(1, A), fnd(0, B), fnd(2, A), fnd(3, A)],
+        [fnd(1, A), fnd(2, A), fnd(0, B), fnd(3, A)],
+        [fnd(0, B), fnd(4, M), fnd(1, A), fnd(2, A), fnd(3, A)],
+        # the newer one arrives after the outcome: not received
+        [fnd(1, A), fnd(2, A), fnd(3, A), fnd(0, B)],
+        # fewer than a majority answered
+        [fnd(1, A), fin()], [fnd(1, A), fnd(2, A), fin()], [fnd(1, A), fnd(0, B), fin()],
+        [fnd(1, FORGED), fin()], [fnd(1, FORGED), fnd(2, FORGED), fin()], [fnd(1, UNSIGNED), fin()],
+        [fnd(1, EMPTY), fin()], [fnd(1, FOREIGN), fin()], [fnd(1, FORGED), fin("timeout")],
+        # a majority of holders lies
+        [fnd(1, FORGED), fnd(2, FORGED), fnd(3, FORGED)], [fnd(1, FOREIGN), fnd(2, FOREIGN), fnd(3, FOREIGN)],
+        [fnd(1, EMPTY), fnd(2, EMPTY), fnd(3, EMPTY)], [fnd(0, A), fnd(1, FORGED), fnd(2, FORGED), fnd(3, FORGED)],
+        [fnd(0, FORGED), fnd(1, A), fnd(2, A), fnd(3, A)], [fnd(0, EMPTY), fnd(1, A), fnd(2, A), fnd(3, A)],
+        [fnd(0, FOREIGN), fnd(1, A), fnd(2, A), fnd(3, A)],
+        # one peer answering three times is one answer
+        [fnd(1, A), fnd(1, A), fnd(1, A), fin()], [fnd(1, FORGED), fnd(1, FORGED), fnd(1, FORGED), fnd(2, A), fin()],
+        [fin("notfound")], [fin("timeout")], [fin("quorumfailed")], [fnd(1, A), fin("quorumfailed")], [],
+    ]
+    n_rand = 120 if tier == "quick" else 1500
+    for _ in range(n_rand):
+        k = rng.choice([1, 2, 3, 4, 5, 6, 7])
+        ev = [fnd(rng.randrange(6), rng.choice([A, A, B, B, M, FORGED, FOREIGN, UNSIGNED, EMPTY, 7, 8, 9])) for _ in range(k)]
+        if rng.random() < 0.6:
+            ev.append(fin(rng.choice(["finished", "finished", "notfound", "timeout", "quorumfailed"])))
+        scripts.append(ev)
+    return [{"op": "vault_kad", "kind": "vault_kad/%s" % ("scripted" if i < 29 else "random"), "owner": OWNER,
+             "recs": pool, "events": ev} for i, ev in enumerate(scripts)]
+
+
 def gen(ctx):
     rng = ctx.rng
     cases = gen_chunk_get(rng, 6 if ctx.tier == "quick" else 30)
     cases += gen_vault(rng, ctx.tier)
     cases += gen_data(rng, ctx.tier)
+    cases += gen_kad(rng, ctx.tier)
     return cases
 
 
@@ -382,6 +466,29 @@ def oracle(c, o):
             and sha3(bytes.fromhex(r["body"]["hex"])) == asked and r.get("key", "requested") == "requested"
         if honest and not (o["res"] == "ok" and o["value"] == r["body"]["hex"]):
             v.append(("honest-chunk-rejected", "an honest reply (the requested chunk) was not returned: %s" % o))
+        return v
+    if c["op"] == "vault_kad":
+        owner = c.get("owner", OWNER)
+        syn = kad_synth(c, o, 0) or ({"op": "vault", "kind": c["kind"], "owner": owner, "reply": {"t": "split", "recs": c["recs"]}},
+                                     dict(o, order=list(range(len(c["recs"]))), keys=o.get("keys")))
+        v = oracle(*syn)
+        # among the versions the holders delivered before the query produced its outcome, no authentic
+        # scratchpad version may be newer than the one handed back
+        f, p = o["fetch"], o["pad"]
+        by_enc = {r["body"].get("encoding"): r["body"] for r in c["recs"] if r["t"] == "rec" and r["body"]["t"] == "pad"}
+        for k, (what, enc) in enumerate((("fetch_and_decrypt_vault", f.get("encoding") if f["res"] == "ok" else None),
+                                         ("get_vault_from_network", p.get("encoding") if p["res"] == "ok" and not p.get("is_new") else None))):
+            if enc is None or enc not in by_enc or k >= len(o.get("delivered", [])):
+                continue
+            got = by_enc[enc]["counter"]
+            seen = [c["recs"][c["events"][ei]["rec"]] for ei in o["delivered"][k] if c["events"][ei]["e"] == "found"]
+            best = [r["body"]["counter"] for r in seen
+                    if r["t"] == "rec" and r.get("kind") == KIND_PAD and pad_is_authentic(r["body"], owner)
+                    and r.get("key", "requested") == "requested"]
+            if best and got < max(best):
+                v.append(("vault-not-highest", "%s returned the version with counter %d although the holders had delivered an "
+                          "authentic version with counter %d before the query completed (events %s)"
+                          % (what, got, max(best), [(e["e"], e.get("peer"), e.get("rec")) for e in c["events"]])))
         return v
     if c["op"] == "vault":
         owner = c.get("owner", OWNER)
@@ -430,7 +537,7 @@ def oracle(c, o):
             v.append(("vault-not-highest", "returned counter %d although an authentic version with counter %d was received"
                       % (got_counter, max(b["counter"] for b in wf_auth))))
         # honest holders: a single well-formed authentic version, or a split of well-formed authentic versions
-        all_honest = recs and all(r["t"] == "rec" and r.get("kind") == KIND_PAD and pad_is_authentic(r["body"], owner)
+        all_honest = c["reply"]["t"] in ("rec", "split") and recs and all(r["t"] == "rec" and r.get("kind") == KIND_PAD and pad_is_authentic(r["body"], owner)
                                   and r.get("key", "requested") == "requested" for _, r in recs)
         if all_honest:
             top = max(r["body"]["counter"] for _, r in recs)
@@ -463,6 +570,57 @@ def coq_sum_bytes_or_code(ok_hex, code):
     return "(inl %s)" % cbytes(ok_hex) if ok_hex is not None else "(inr %s)" % cstr(code)
 
 
+def vault_terms(c, o):
+    order = o.get("order") or []
+    rp = reply_term(c["reply"], order, o.get("keys"), o["asked_key"])
+    key = cN(int(o["asked_key"], 16))
+    f, p = o["fetch"], o["pad"]
+    owner = c.get("owner", OWNER)
+    if f["res"] == "ok":
+        out = "(inl (Some %s, %s))" % (cbytes(f["data"]), cN(f["encoding"]))
+    else:
+        out = "(inr %s)" % cstr(f["code"])
+    if p["res"] == "ok" and not p["is_new"]:
+        pout = "(Some (%s, %s, %s))" % (cN(p["counter"]), cbool(p["valid"]), cbool(p["owner_ok"]))
+    elif p["res"] == "ok":
+        pout = "None"
+    else:
+        return ("false", "false")   # get_or_create_scratchpad can only fail with VaultBadOwner: unreachable after the repair
+    return ("agree_vault %s %s %s %s" % (key, rp, cN(owner), out), "agree_vault_pad %s %s %s %s" % (key, rp, cN(owner), pout))
+
+
+def kad_synth(c, o, k):
+    """the reply-level case equivalent to what the real quorum accumulation delivered to the api caller for
+    the k-th read of a kad-level case (None if the delivered record is not one of the planted ones)"""
+    if k >= len(o.get("observed", [])):
+        return None
+    ob, recs, asked = o["observed"][k], c["recs"], o["asked_key"]
+    rekey = lambda r, key: dict(r, key=("requested" if key == asked else key))
+    if ob["t"] == "ok":
+        if ob["i"] < 0:
+            return None
+        reply, keys, order = rekey(recs[ob["i"]], ob["key"]), [ob["key"]], []
+    elif ob["t"] == "err":
+        if "i" in ob:
+            if ob["i"] < 0:
+                return None
+            reply, keys = {"t": "err", "e": ob["e"], "rec": rekey(recs[ob["i"]], ob["key"])}, [ob["key"]]
+        else:
+            reply, keys = {"t": "err", "e": ob["e"]}, []
+        order = []
+    else:
+        if any(i < 0 for i in ob["order"]):
+            return None
+        keys = [asked] * len(recs)
+        rr = list(recs)
+        for i, key in zip(ob["order"], ob["keys"]):
+            keys[i] = key
+            rr[i] = rekey(recs[i], key)
+        reply, order = {"t": "split", "recs": rr}, ob["order"]
+    return ({"op": "vault", "kind": c["kind"], "owner": c.get("owner", OWNER), "reply": reply},
+            dict(o, order=order, keys=keys))
+
+
 def model_term(c, o):
     if "panic" in o:
         return "false"
@@ -470,24 +628,18 @@ def model_term(c, o):
         asked = int(o["asked"], 16)
         order = o.get("order") or []
         out = coq_sum_bytes_or_code(o["value"] if o["res"] == "ok" else None, o.get("code", ""))
-        return "agree_chunk_get %s %s %s %s" % (chunk_table(c), reply_term(c["reply"], order, o.get("keys")), cN(asked), out)
+        return "agree_chunk_get %s %s %s %s" % (chunk_table(c), reply_term(c["reply"], order, o.get("keys"), o["asked"]), cN(asked), out)
     if c["op"] == "vault":
-        order = o.get("order") or []
-        rp = reply_term(c["reply"], order, o.get("keys"))
-        key = cN(int(o["asked_key"], 16))
-        f, p = o["fetch"], o["pad"]
-        owner = c.get("owner", OWNER)
-        if f["res"] == "ok":
-            out = "(inl (Some %s, %s))" % (cbytes(f["data"]), cN(f["encoding"]))
-        else:
-            out = "(inr %s)" % cstr(f["code"])
-        if p["res"] == "ok" and not p["is_new"]:
-            pout = "(Some (%s, %s, %s))" % (cN(p["counter"]), cbool(p["valid"]), cbool(p["owner_ok"]))
-        elif p["res"] == "ok":
-            pout = "None"
-        else:
-            return "false"      # get_or_create_scratchpad can only fail with VaultBadOwner: unreachable after the repair
-        return "agree_vault %s %s %s %s && agree_vault_pad %s %s %s %s" % (key, rp, cN(owner), out, key, rp, cN(owner), pout)
+        t = vault_terms(c, o)
+        return None if t is None else "%s && %s" % t
+    if c["op"] == "vault_kad":
+        # the model starts where the network layer delivers its outcome to the api caller: evaluate it on the
+        # outcome the real quorum accumulation delivered for each of the two reads
+        a, b = kad_synth(c, o, 0), kad_synth(c, o, 1)
+        if a is None or b is None:
+            return None
+        ta, tb = vault_terms(*a), vault_terms(*b)
+        return None if ta is None or tb is None else "%s && %s" % (ta[0], tb[1])
     if c["op"] == "data":
         return data_term(c, o)
     return None
@@ -514,8 +666,10 @@ def data_term(c, o):
         elif w["t"] == "kind":
             m = "FAuth" if w["kind"] == KIND_CHUNK else ("FKind" if w["kind"] <= 7 else "FHeader")
         elif w["t"] == "err":
+            dummy = "{| r_key := 0; r_hdr := None; r_body := BJunk |}"
             m = "(FNetErr %s)" % {"NotFound": "GNotFound", "Timeout": "GTimeout", "KindMismatch": "GKindMismatch",
-                                  "DoesNotMatch": "GDoesNotMatch", "NotEnoughCopies": "GNotEnoughCopies"}[w["e"]]
+                                  "DoesNotMatch": "(GDoesNotMatch %s)" % dummy,
+                                  "NotEnoughCopies": "(GNotEnoughCopies %s)" % dummy}[w["e"]]
         elif w["t"] == "raw":
             m = "FHeader" if len(bytes.fromhex(w["hex"])) < 3 else "FDeser"
         else:
@@ -527,10 +681,13 @@ def data_term(c, o):
 
 
 def show(c, o):
+    if c["op"] == "vault_kad":
+        a = kad_synth(c, o, 0)
+        return show(*a) if a else "tt"
     if c["op"] == "chunk_get":
-        return "chunk_get (tab_hash %s) %s %s" % (chunk_table(c), reply_term(c["reply"], o.get("order") or [], o.get("keys")), cN(int(o["asked"], 16)))
+        return "chunk_get (tab_hash %s) %s %s" % (chunk_table(c), reply_term(c["reply"], o.get("order") or [], o.get("keys"), o["asked"]), cN(int(o["asked"], 16)))
     if c["op"] == "vault":
-        rp = reply_term(c["reply"], o.get("order") or [], o.get("keys"))
+        rp = reply_term(c["reply"], o.get("order") or [], o.get("keys"), o["asked_key"])
         key = cN(int(o["asked_key"], 16))
         return "(fetch_and_decrypt_vault %s %s %s, get_vault %s %s %s)" % (key, rp, cN(c.get("owner", OWNER)), key, rp, cN(c.get("owner", OWNER)))
     return "tt"
@@ -539,6 +696,9 @@ def show(c, o):
 def nontrivial(c, o):
     if "panic" in o:
         return None
+    if c["op"] == "vault_kad":
+        return ("kad", tuple((e["e"], e.get("rec")) for e in c["events"]), o["fetch"]["res"], o["fetch"].get("code"),
+                tuple(ob["t"] for ob in o.get("observed", [])))
     if c["op"] == "chunk_get":
         return (c["kind"], o["res"], o.get("code"))
     if c["op"] == "vault":
